@@ -790,9 +790,9 @@ def run(ctx):
     tabs = table_cases()
     ok = ctx.cases([c for i, c in enumerate(tabs) if ctx.mine(i)], check, label="index tables")
     ctx.note("index_tables", {"Lmax": LMAX, "tables_per_dimension": len(TABLES3), "enumeration_complete": bool(ok)})
-    ctx.given(construct_cases(), check, quick=800, thorough=30000, salt=1, label="constructexpansion")
-    ctx.given(algebra_cases(3), check, quick=2400, thorough=150000, salt=2, label="algebra 3D")
-    ctx.given(algebra_cases(2), check, quick=2400, thorough=150000, salt=3, label="algebra 2D")
+    ctx.given(construct_cases(), check, quick=800, thorough=10000, salt=1, label="constructexpansion")
+    ctx.given(algebra_cases(3), check, quick=2400, thorough=30000, salt=2, label="algebra 3D")
+    ctx.given(algebra_cases(2), check, quick=2400, thorough=30000, salt=3, label="algebra 2D")
     if _EXCLUDED["real_complex_mix"]:
         ctx.exclude("real_complex_mix", _EXCLUDED["real_complex_mix"])
 
